@@ -51,9 +51,9 @@ class ShapeType(Enum):
             >>> ShapeType.from_value("bounding_box")
             ShapeType.BOUNDING_BOX
         """
-        for k, v in cls.__members__.items():
+        for _, v in cls.__members__.items():
             if v == name:
-                return k
+                return v
         raise ValueError(f"Unexpected name: {name}, choose from {list(cls.__members__.keys())}")
 
     def __str__(self) -> str:
